@@ -604,6 +604,9 @@ func init() {
 					c.R.Floor("C10.R6", runAs(c, "C10.R6", func(c2 *Ctx) { c05TypeOf(c2, fd) }, nil), 1)
 				}
 			}},
+			{ID: "C10.R8", Doc: "KeyExists, the presence test TypeOfTF guards its last segment with, is the comma-ok of spine[key] — a field holding nil exists (= C06.R2 on KeyExists)", Run: func(c *Ctx) {
+				c.R.Floor("C10.R8", runAs(c, "C10.R8", c06Basics, func(o *Obligation) bool { return strings.Contains(o.Construct, "KeyExists") }), 1)
+			}},
 			{ID: "C10.R7", Doc: "TypeOf, the kind test the navigation relies on, reports the stored kind of every field, containers by their interface (= C12.R3)", Run: func(c *Ctx) {
 				c.R.Floor("C10.R7", runAs(c, "C10.R7", c12R3, func(o *Obligation) bool { return strings.Contains(o.Construct, "TypeOf") }), 2)
 			}},
@@ -784,6 +787,7 @@ func init() {
 				c.R.Floor("C11.R7", n, 4)
 			}},
 			{ID: "C11.R6", Doc: "frame: no two containers share storage, so a write through one path is invisible through every other (= OWN, C09.R2)", Run: func(c *Ctx) { c.R.Floor("C11.R6", ownRule(c, "C11.R6"), 3) }},
+			{ID: "C11.R10", Doc: "the value written is the value read back: parseVal maps every Go type to the constructor of its kind through value-preserving conversions and the constructors wrap their argument unchanged (= C12.R1)", Run: func(c *Ctx) { c.R.Floor("C11.R10", runAs(c, "C11.R10", c12R1, nil), 10) }},
 			{ID: "C11.R9", Doc: "a write replaces the addressed field and touches no other: scalar wrappers are immutable after construction (= C09.R5), so entries that share a wrapper with the written slot keep their value", Run: func(c *Ctx) { c09Immutable(c, "C11.R9") }},
 			{ID: "C11.R8", Doc: "TypeOf, which decides reuse-or-replace of an intermediate, reports the stored kind of every field, containers by their interface (= C12.R3)", Run: func(c *Ctx) {
 				c.R.Floor("C11.R8", runAs(c, "C11.R8", c12R3, func(o *Obligation) bool { return strings.Contains(o.Construct, "TypeOf") }), 2)
